@@ -12,7 +12,7 @@ from ..engine import cfg as cfgmod, typestate
 from ..engine.facts import dotted, const, src, walk_func, enclosing_stmt, ancestors
 from . import skeletons as sk
 from ..engine import pattern as P
-from .common import calls, stmt_nodes, norm_successors, contains, raise_names, pn, access_paths, assigned_from
+from .common import calls, stmt_nodes, norm_successors, contains, raise_names, pn, access_paths, assigned_from, arms, branch_paths
 from . import c16  # render-isolation is registered there for C13 as well
 
 DEF_CONSTRUCTS = ["write_render_callable", "write_inline_def"]
@@ -282,7 +282,7 @@ def handlers(ctx):
     rcn = [x for c in rc for x in stmt_nodes(g, c)]
     rpn = [x for r in repl for x in g.nodes_of(r)]
     path = g.path_avoiding(g.entry, rcn, rpn) if rcn else None
-    ctx.check(bool(repl) and bool(rc) and path is None and all(isinstance(r.value, ast.List) and len(r.value.elts) == 1 for r in repl), "render_error.buffer-reset", db.where(re_),
+    ctx.check(bool(repl) and bool(rc) and path is None and all(isinstance(a_, ast.List) and len(a_.elts) == 1 for r in repl for a_ in arms(r.value)), "render_error.buffer-reset", db.where(re_),
               "format_exceptions does not replace the whole buffer stack with one fresh buffer before rendering the error page: partial output of abandoned buffers leaks into it", "buffer stack replaced by one fresh buffer on both branches")
     # every other except clause in runtime.py re-raises or translates
     allowed = {("runtime._include_file", "Exception"), ("runtime._exec_template", "Exception"), ("runtime._exec_template", None),
